@@ -8,7 +8,7 @@ REQUIRED = ["CifModel.C04_inv_init", "CifModel.C04_inv_sql", "CifModel.C04_inv_s
             "CifModel.names_returned_as_created_items", "CifModel.set_value_new_item_goes_to_scalar", "CifModel.C04_refines_get_block",
             "CifModel.C04_refines_create_block", "CifModel.C04_refines_all_blocks", "CifModel.C04_refines_get_frame", "CifModel.C04_refines_create_loop", "CifModel.C04_refines_add_packet", "CifModel.C04_add_packet_total", "CifModel.C04_refines_get_value", "CifModel.C04_refines_set_value", "CifModel.C04_refines_remove_item", "CifModel.C04_refines_destroy_loop", "CifModel.C04_refines_set_category", "CifModel.C04_refines_set_value_new", "CifModel.C04_refines_add_item", "CifModel.C04_refines_prune", "CifModel.C04_get_value_column", "CifModel.C04_add_packet_is_spec_packet",
             "CifModel.C04_cex_F30_pinned", "CifModel.C04_cex_F34_pinned",
-            "CifModel.C04_wok_init", "CifModel.C04_wok_step", "CifModel.C04_wok_hist", "CifModel.C04_packets_total", "CifModel.C04_rows_below", "CifModel.C04_iterator_tied", "CifModel.C04_add_packet_in_contract", "CifModel.C04_set_category_in_contract", "CifModel.C04_get_value_in_wok", "CifModel.C04_remove_item_in_wok",
+            "CifModel.C04_wok_init", "CifModel.C04_wok_step", "CifModel.C04_wok_hist", "CifModel.C04_packets_total", "CifModel.C04_rows_below", "CifModel.C04_iterator_tied", "CifModel.C04_quiet", "CifModel.C04_add_packet_in_contract", "CifModel.C04_set_category_in_contract", "CifModel.C04_get_value_in_wok", "CifModel.C04_remove_item_in_wok", "CifModel.C04_refines", "CifModel.C04_refines_hist",
             "CifModel.C04_code_set_category", "CifModel.C04_code_add_packet", "CifModel.C04_code_remove_item",
             "CifModel.C04_abs_fuel_suffices", "CifModel.C04_refines_create_frame", "CifModel.C04_create_frame_elsewhere", "CifModel.C04_refines_destroy_container",
             "CifModel.Store.schema_tables_link", "CifModel.Store.schema_triggers_link", "CifModel.Store.schema_sql_link",
